@@ -40,7 +40,7 @@ def install(I):
 class QueryRun:
     def __init__(self): self.parse = None; self.tree = None; self.results = []; self.descriptions = None
 
-def run_query(I, s, describe=False, max_results=64):
+def run_query(I, s, describe=False, max_results=64, evaluate=True):
     """s: StrS (the query text).  Returns QueryRun; .parse is the Result of parse_root, .results the list of
     Result<Numeric, Error> values the Query iterator produced."""
     install(I)
@@ -49,6 +49,7 @@ def run_query(I, s, describe=False, max_results=64):
     out.parse = r
     if r.variant != 'Ok': return out
     tree = r.items[0]; out.tree = tree
+    if not evaluate: return out
     ch = I.call("Tree::<Syntax, u32, u32>::children", [VRef(Cell(tree), [])])
     descs = Cell(coll.vec([]))
     db = VRef(Cell(VObj('db')), [])
